@@ -93,7 +93,7 @@ CHECKS = {
  "C06": dict(
    level="fault_enumeration", design="§5 C06, §10",
    text="Pipeline.tla is the protocol of one compilation (Start -> Parsed -> Checked -> Emitted | Refused) with the ground-truth fault set in the state; "
-        "TLC checks that a faulty program is refused with an error in an offending module and that nothing is emitted. The fault model is twelve "
+        "TLC checks that a faulty program is refused with an error in an offending module and that nothing is emitted. The fault model is thirteen "
         "mutation operators, each applied textually at every applicable site of accepted programs (generated + repository) with a construction "
         "argument that the mutant is ill-formed by the language rules (validated by re-parsing to exactly the intended tree); every mutant's recorded "
         "pipeline trace (front verdict, error modules, artefacts from the real compile_sources) is judged by PipelineTrace.tla. Absolute half on a core "
